@@ -13,7 +13,7 @@ from harness import coqfmt as cf
 PROP = "C17"
 COQ = dict(imports=["Model.RevHeader", "Model.Incremental", "Spec.C17"], in_ty="c17_in", out_ty="c17_out", corr="corr_C17",
            decide="check_C17", inclass="inclass_C17", model="model_C17")
-THEOREMS = ["C17_header_roundtrip", "C17_docstring_partial", "C17_docstring_refuted", "C17_incremental", "C17_incremental_view",
+THEOREMS = ["C17_filename_prefix_ok", "C17_filename_injective", "C17_filename_refuted", "C17_decider_complete", "C17_header_roundtrip", "C17_docstring_partial", "C17_docstring_refuted", "C17_incremental", "C17_incremental_view",
             "C17_incremental_refuted_id_is_label", "C17_accepted_is_scanned", "C17_subdir_not_scanned", "C17_decider_sound", "C17_main"]
 TRUSTED = [
     "Mako rendering of script.py.mako, file naming (_rev_path) and importlib loading are observed, not modelled: the model "
@@ -54,11 +54,13 @@ LEVEL_NOTE = ("Partial: Mako, file naming and importlib are observed only; ances
 
 IDS = ["r{k}a{k}x", "r{k}b'{k}q", 'r{k}c"{k}d', "r{k}dé{k}ü", "r{k}e {k}sp", "r{k}f​{k}zw", "R{k}G{k}Mixed", "r{k}h_{k}"]
 MSGS = ["plain message", "it's quoted", 'say "hi" twice', "multi\nline\nmessage", "unicodé 中文 ✓", "tab\there", "",
-        "ends with quote'", "percent %s %(x)s ${y}", "a\u200bzero", "<%text>mako</%text> ## comment", "x" * 70]
+        "ends with quote'", "percent %s %(x)s ${y}", "a\u200bzero", "<%text>mako</%text> ## comment", "x" * 70, "UPPER Case MiXed", "İzmir ÄÖÜ table", "trailing___under__scores_", "a-b-c d.e/f",
+        "123 numbers first", "one_very_long_word_" * 4, "__init__ later word", "ǅ titlecase ǈ"]
 LABELS = ["lab{k}", "br'{k}", "naïve{k}"]
 FILE_TEMPLATES = [None, "%%(rev)s_%%(slug)s", "%%(year)d_%%(month).2d_%%(rev)s", "%%(slug)s-%%(rev)s", "%%(epoch)s_%%(rev)s",
                   "%%(year)d%%(month).2d%%(day).2d_%%(hour).2d%%(minute).2d%%(second).2d_%%(rev)s_%%(slug)s"]
-FINDING_IDS = ["C17-docstring-triple-quote", "C17-docstring-backslash", "C17-revid-equals-label"]
+FINDING_IDS = ["C17-docstring-triple-quote", "C17-docstring-backslash", "C17-revid-equals-label",
+               "C17-filename-ignored-by-loader", "C17-file-template-without-rev-overwrites"]
 
 
 def registered():
@@ -148,6 +150,15 @@ def finding_cases(reg):
     if "C17-docstring-backslash" in reg:
         out.append(dict(base, finding="C17-docstring-backslash",
                         calls=[{"rid": "r0a0x", "msg": "fix C:\\users\\x", "via": "revision", "head": "base"}]))
+    if "C17-filename-ignored-by-loader" in reg:
+        out.append(dict(base, finding="C17-filename-ignored-by-loader",
+                        cfg={"file_template": "%%(slug)s_%%(rev)s", "truncate_slug_length": None, "locations": 1},
+                        calls=[{"rid": "r0a0x", "msg": "__init__ of the schema", "via": "generate", "head": "base"}]))
+    if "C17-file-template-without-rev-overwrites" in reg:
+        out.append(dict(base, finding="C17-file-template-without-rev-overwrites",
+                        cfg={"file_template": "%%(slug)s", "truncate_slug_length": None, "locations": 1},
+                        calls=[{"rid": "r0a0x", "msg": "add table", "via": "generate", "head": "base", "fixed": True},
+                               {"rid": "r1a1x", "msg": "add table", "via": "generate", "head": "pick_head", "fixed": True}]))
     if "C17-revid-equals-label" in reg:
         out.append(dict(base, finding="C17-revid-equals-label",
                         calls=[{"rid": "r0a0x", "msg": "a", "via": "generate", "head": "base", "labels": ["lab0"]},
@@ -169,6 +180,8 @@ def generate(tier, seed):
 
 
 def search(tier, seed):
+    # finding classes that are not registered yet stay in the search stream until they are
+    yield from finding_cases(set(FINDING_IDS) - registered())
     rnd = random.Random(seed * 104729 + 17)
     for k in range(600):
         yield gen_seq(rnd, k, set())
@@ -277,7 +290,49 @@ def _run_case(h):
             return cf.nlist(comps(pth))
 
         def all_py():
-            return {os.path.join(root, fn) for root, _, files in os.walk(d) for fn in files if fn.endswith(".py")}
+            """every python file below the temp root with its content (a call may also overwrite a file)"""
+            out = set()
+            for root, _, files in os.walk(d):
+                for fn in files:
+                    if not fn.endswith(".pyc"):
+                        pth = os.path.join(root, fn)
+                        out.add((pth, open(pth, "rb").read()))
+            return out
+
+        def e_naming(msg, doc_text):
+            """file_template as pieces, message, truncate_slug_length, and the two Unicode tables restricted to the message"""
+            import datetime
+            import re as _re
+            tpl = sd.file_template
+            dt = None
+            m = _re.search(r"^Create Date: (.*)$", doc_text or "", _re.M)
+            if m:
+                try:
+                    dt = datetime.datetime.fromisoformat(m.group(1).strip())
+                except ValueError:
+                    dt = None
+            pieces = []
+            for mm in _re.finditer(r"%\((\w+)\)([^a-zA-Z%]*[a-zA-Z])|%%|[^%]+", tpl):
+                if mm.group(1) == "rev":
+                    pieces.append("TRevId")
+                elif mm.group(1) == "slug":
+                    pieces.append("TSlug")
+                elif mm.group(1):
+                    if dt is None:
+                        pieces.append("(TDate [])")
+                    else:
+                        val = {"epoch": int(dt.timestamp()), "year": dt.year, "month": dt.month, "day": dt.day, "hour": dt.hour,
+                               "minute": dt.minute, "second": dt.second}[mm.group(1)]
+                        pieces.append("(TDate %s)" % S(("%" + mm.group(2)) % val))
+                elif mm.group(0) == "%%":
+                    pieces.append("(TLit %s)" % S("%"))
+                else:
+                    pieces.append("(TLit %s)" % S(mm.group(0)))
+            msg = msg or ""
+            words = sorted({ord(ch) for ch in msg if _re.match(r"\w", ch)})
+            lower = sorted({(ord(ch), ch.lower()) for ch in msg if ch.lower() != ch})
+            return "%s %s %d%%nat %s %s" % (lst(pieces), S(msg), sd.truncate_slug_length, cf.nlist(words),
+                                           lst(lower, lambda p: "(%d, %s)" % (p[0], S(p[1]))))
         e_locs = lst(locs, e_path)
         sd = ScriptDirectory.from_config(cfg)
         ids, labels = [], []
@@ -396,21 +451,21 @@ def _run_case(h):
                 # a rejected call: it must leave no file behind; the model decides whether the directory was acceptable
                 rejected += 1
                 log.append("rejected:%s" % str(e)[:40])
-                left = bool(all_py() - before)
+                left = bool({p for p, _ in all_py()} - {p for p, _ in before})
                 frev = "(mkF %d %s %s %s)" % (key(rid), cf.nlist(key(x) for x in parents), cf.nlist(key(x) for x in deps_exp),
                                                cf.nlist(key(x) for x in labs))
-                steps_in.append("(mkStep %s %s %s %s %s %s %s %s %s %s)" % (
+                steps_in.append("(mkStep %s %s %s %s %s %s %s %s %s %s %s)" % (
                     frev, S(rid), lst(parents, S), lst(labs, S), lst(deps_exp, S), cf.nlist(nonprintable([rid] + parents + labs + deps_exp)),
-                    S(""), e_locs, cf.boolean(recursive), e_path(eff)))
+                    S(""), e_locs, cf.boolean(recursive), e_path(eff), e_naming(msg, None)))
                 steps_out.append({"rejected": True, "left": left, "header": "", "loaded": False, "module_ok": False, "views": None,
-                                  "same": False, "dir": "[]"})
+                                  "same": False, "dir": "[]", "file": ""})
                 continue
             except SyntaxError:
                 module_ok = False
             # locate the written file: the one that was not there before the call
-            new = sorted(all_py() - before)
+            new = sorted(p for p, _ in all_py() - before)
             if len(new) != 1:
-                raise RuntimeError("expected one new file for %r, found %r" % (rid, new))
+                raise RuntimeError("expected one new or rewritten file for %r, found %r" % (rid, new))
             path = new[0]
             txt = open(path, encoding="utf-8").read()
             i0 = txt.index("\nrevision: str = ") + 1
@@ -428,9 +483,9 @@ def _run_case(h):
             frev = "(mkF %d %s %s %s)" % (key(rid), cf.nlist(key(x) for x in parents), cf.nlist(key(x) for x in deps_exp),
                                            cf.nlist(key(x) for x in labs))
             strings = [rid] + parents + labs + deps_exp
-            steps_in.append("(mkStep %s %s %s %s %s %s %s %s %s %s)" % (
+            steps_in.append("(mkStep %s %s %s %s %s %s %s %s %s %s %s)" % (
                 frev, S(rid), lst(parents, S), lst(labs, S), lst(deps_exp, S), cf.nlist(nonprintable(strings)), S(doc_body),
-                e_locs, cf.boolean(recursive), e_path(eff)))
+                e_locs, cf.boolean(recursive), e_path(eff), e_naming(msg, doc_body)))
             views = None
             if module_ok:
                 try:
@@ -442,20 +497,20 @@ def _run_case(h):
                     views = None
             steps_out.append({"path": path, "header": header, "loaded": loaded_ok, "module_ok": module_ok, "views": views,
                               "same": views is not None and views[0] == views[1], "rejected": False, "left": False,
-                              "dir": e_path(os.path.dirname(path))})
-            if not module_ok or views is None:
+                              "dir": e_path(os.path.dirname(path)), "file": os.path.basename(path)})
+            if not module_ok or views is None or script is None:
                 break
             ids.append(rid)
             labels.extend(labs)
     finally:
         shutil.rmtree(d, ignore_errors=True)
     cin = lst(steps_in)
-    cout = lst(steps_out, lambda o: "(mkSO %s %s %s %s %s %s %s)" % (
+    cout = lst(steps_out, lambda o: "(mkSO %s %s %s %s %s %s %s %s)" % (
         S(o["header"]), cf.boolean(o["loaded"]), cf.boolean(o["module_ok"]),
         "None" if o["views"] is None else "(Some (%s, %s))" % (e_view(o["views"][0]), e_view(o["views"][1])),
-        cf.boolean(o["rejected"]), cf.boolean(o["left"]), o["dir"]))
+        cf.boolean(o["rejected"]), cf.boolean(o["left"]), o["dir"], S(o["file"])))
     out = {"steps": [{"header": o["header"], "loaded": o["loaded"], "module_ok": o["module_ok"], "mem_eq_disk": o["same"],
-                      "rejected": o["rejected"], "file_left": o["left"]} for o in steps_out],
+                      "rejected": o["rejected"], "file_left": o["left"], "file": o["file"]} for o in steps_out],
            "rejected": rejected, "log": log}
     shape = "n%d%s%s" % (len([o for o in steps_out if not o["rejected"]]), "" if all(o["module_ok"] for o in steps_out) else "-syntaxerror", "-rej" if rejected else "")
     return dict(cin=cin, cout=cout, out=out, nontrivial=len([o for o in steps_out if not o["rejected"]]) >= 2, shape=shape)
